@@ -255,6 +255,11 @@ def b_int(it, args, kwargs, node):
                 return IntV(int(v.lit_value(), base))
             except ValueError:
                 raise Raised(ExcV(ValueError, [], node=node, stack=it.stack, op=f'int({v!r})', definite=True))
+        # zero fill followed by a numeral in the same base: the fill does not change the value
+        if len(v.segs) == 2 and isinstance(v.segs[1], Num) and v.segs[1].base == base and v.segs[1].val is not None \
+                and it.store.prove_ge0(v.segs[1].val) and _is_zero_fill(v.segs[0]):
+            it.op_safe(node, 'int', 'zero-filled numeral rendered in the same base')
+            return IntV(v.segs[1].val, tags)
         # exact inverse of a numeral
         if len(v.segs) == 1 and isinstance(v.segs[0], Num):
             n = v.segs[0]
@@ -314,6 +319,12 @@ def b_int(it, args, kwargs, node):
         return IntV(Lin.sym(s), value_tags(v))
     it.note_unknown(node, f'int({v!r})')
     return it._opaque_int('int', node)
+
+
+def _is_zero_fill(g):
+    if isinstance(g, Rep):
+        return g.unit in ('0', b'0')
+    return isinstance(g, Opq) and isinstance(g.desc, tuple) and g.desc[0] == 'recode-rep' and g.desc[1] == '0'
 
 
 def _is_hex_seq(it, v):
